@@ -221,6 +221,7 @@ static Outcome run(tape_t const& tape)
         }
         return os.str();
     };
+    G().stranded_after_samples = 100;
     Quiescence q;
     q.start();
     std::vector<std::thread> os_threads;
